@@ -158,7 +158,8 @@ let run (prop : string) (input : S.t) (observed : S.t) : S.t * string =
     let value = cv_of v in
     (* "reql" / "reqv": the value travels through a request (literal / variable) to the resolver's
        argument; the delivered argument is what coercion by the declared type yields *)
-    let dir = if String.length dir >= 3 && String.sub dir 0 3 = "req" then "in" else dir in
+    (* "inb": the input types are bound to Go structs; the harness writes the struct back as a map *)
+    let dir = if (String.length dir >= 3 && String.sub dir 0 3 = "req") || dir = "inb" then "in" else dir in
     let expected =
       if dir = "in" then
         (match Model.coerce_input ty value with
